@@ -1,7 +1,7 @@
 ------------------------------- MODULE LLexFill -------------------------------
 (***************************************************************************)
 (* Contents of string literals and comments: ALL strings of length         *)
-(* <= MaxLen over the symbols                                              *)
+(* <= MaxLen over the symbols (Alphabet = "ascii")                         *)
 (*   ; , | ( ) [ ] { } # /* */ :- distinct in if " ' \                     *)
 (* (keywords are padded with spaces so that they are words).  For every    *)
 (* such content and every form (dq "...", sq '...', tq triple-quoted,      *)
@@ -13,13 +13,19 @@
 (***************************************************************************)
 EXTENDS LLex
 
-CONSTANTS MaxLen
+CONSTANTS MaxLen,
+          Alphabet    \* "ascii": the 19 symbols; "unicode": see SymU
 
-Sym == << <<59>>, <<44>>, <<124>>, <<40>>, <<41>>, <<91>>, <<93>>, <<123>>,
+SymA == << <<59>>, <<44>>, <<124>>, <<40>>, <<41>>, <<91>>, <<93>>, <<123>>,
           <<125>>, <<35>>, <<47, 42>>, <<42, 47>>, <<58, 45>>,
           <<32, 100, 105, 115, 116, 105, 110, 99, 116, 32>>,
           <<32, 105, 110, 32>>, <<32, 105, 102, 32>>,
           <<34>>, <<39>>, <<92>> >>
+(* Characters whose UTF-8 encoding takes 2, 3 and 4 bytes (U+00E9, U+20AC, *)
+(* U+1D11E), with a separator and a bracket: spans are code-point offsets  *)
+(* for the Python parser and byte offsets inside the C++ parser.           *)
+SymU == << <<233>>, <<8364>>, <<119070>>, <<59>>, <<41>> >>
+Sym == IF Alphabet = "unicode" THEN SymU ELSE SymA
 
 VARIABLES fill
 vars == <<fill>>
